@@ -737,6 +737,11 @@ impl<'a> Iterator for OutIter<'a> {
                 std::thread::yield_now();
             }
             Some(Out { val, stamp: 0 })
+        } else if same && self.i < b.inputs.len() + 4 {
+            // a group-commit style core hands out one watermark for as long as it is asked (the
+            // trait does not bound the iterator): the queue must take `taken` outputs and no more
+            self.i += 1;
+            Some(Out { val: 900_000_000 + bno, stamp: 0 })
         } else {
             None
         }
